@@ -41,17 +41,17 @@ theorem fieldName_cases (isClass : Bool) (pq : PQName) (nm : Option String) (h :
     | _ => simp [hg] at h
 
 theorem parseField_plain (env : Env) (F : Nat) (mods : Mods) (dtype : DType) (pq : PQName) (template : Option TemplateDecl)
-    (doxygen : Option String) (location : LocRef) (w : World) (tm : Tok) (b1 : Buf)
+    (doxygen : Option String) (location : LocRef) (isTypedef : Bool) (w : World) (tm : Tok) (b1 : Buf)
     (blk : Block) (rest : List Block) (hstack : w.stack = blk :: rest) (nm : Option String)
-    (hname : fieldName (blk.hdr.kind = .cls) pq = some nm)
+    (hname : fieldName (isTypedef || decide (blk.hdr.kind = .cls)) pq = some nm)
     (htok : tokenEofOk env.cfg w.buf = .ok (some tm, b1))
     (htm : ["[", ":", "=", "{"].contains tm.type = false) :
     ∃ (w5 : World) (t' : Tok) (bx : Buf) (dox : Option String),
       SameParse { w with stack := { blk with loc := location } :: rest } w5 ∧
       tokenEofOk env.cfg w5.buf = .ok (some t', bx) ∧ SigEq b1 bx ∧ t'.type = tm.type ∧ t'.value = tm.value ∧
       (∀ d, doxygen = some d → dox = some d) ∧
-      interp env (parseField F mods dtype (some pq) template doxygen location false) w =
-        interp env (fieldEmit mods ({ blk with loc := location } : Block).view dtype (some pq) template nm none none dox false) w5 := by
+      interp env (parseField F mods dtype (some pq) template doxygen location isTypedef) w =
+        interp env (fieldEmit mods ({ blk with loc := location } : Block).view dtype (some pq) template nm none none dox isTypedef) w5 := by
   simp only [List.contains_cons, List.contains_nil, Bool.or_false, Bool.or_eq_false_iff, beq_eq_false_iff_ne, ne_eq] at htm
   obtain ⟨h1, h2, h3, h4⟩ := htm
   have htop := interp_getTop env { w with stack := { blk with loc := location } :: rest } { blk with loc := location } rest rfl
@@ -68,12 +68,89 @@ theorem parseField_plain (env : Env) (F : Nat) (mods : Mods) (dtype : DType) (pq
     refine ⟨wd, td, b1, some d, hsame, htd, SigEq.refl _, htyT, hvT, fun _ h => h, ?_⟩
     unfold parseField P.setLoc
     rcases hcase with ⟨hc, hl, rfl⟩ | ⟨hc, rfl⟩
+    · simp only [bind, interp_bind, interp, hstack, htop, hg, Block.view, hc, ↓reduceIte, hl,
+        hia, hib, hic, hid, pure]
+    · simp only [bind, interp_bind, interp, hstack, htop, hg, Block.view, hc, Bool.false_eq_true,
+        ↓reduceIte, hia, hib, hic, hid, pure]
+  | none =>
+    have hsig := getDoxygenAfter_sigEq env.mcRe wd.buf
+    rcases tokenEofOk_sigEq env.cfg hsig.symm with ⟨e, he, _⟩ | ⟨o, bA, bB, hA, hB, hAB⟩
+    · rw [htd] at he; cases he
+    · rw [htd] at hA
+      injection hA with hA; injection hA with ho hbA
+      subst ho; subst hbA
+      refine ⟨{ wd with buf := (getDoxygenAfter env.mcRe wd.buf).2 }, td, bB, (getDoxygenAfter env.mcRe wd.buf).1,
+        hsame.trans (SameParse.setBuf wd _), hB, hAB, htyT, hvT, (fun _ h => by cases h), ?_⟩
+      unfold parseField P.setLoc
+      rcases hcase with ⟨hc, hl, rfl⟩ | ⟨hc, rfl⟩
+      · simp only [bind, interp_bind, interp, hstack, htop, hg, Block.view, hc, ↓reduceIte, hl,
+          hia, hib, hic, hid, pure, interp_getDoxygenAfter]
+      · simp only [bind, interp_bind, interp, hstack, htop, hg, Block.view, hc, Bool.false_eq_true,
+          ↓reduceIte, hia, hib, hic, hid, pure, interp_getDoxygenAfter]
+
+/-- the value object of the written tokens -/
+def valueOf (vals : List Tok) : Value := { tokens := vals.map (fun t => { value := t.value, type := t.type }) }
+
+theorem createValue_eq : ∀ (res : List CTok) (vals : List Tok), res.map CTok.tv = vals.map Tok.tv → createValue res = valueOf vals := by
+  intro res
+  induction res with
+  | nil => intro vals h; cases vals with
+    | nil => rfl
+    | cons v vs => simp at h
+  | cons r rs ih =>
+    intro vals h
+    cases vals with
+    | nil => simp at h
+    | cons v vs =>
+      simp only [List.map_cons, List.cons.injEq, CTok.tv, Tok.tv, Prod.mk.injEq] at h
+      have := ih vs h.2
+      simp only [createValue, valueOf, List.map_cons] at this ⊢
+      rw [h.1.1, h.1.2]
+      simp only [Value.mk.injEq] at this ⊢
+      rw [this]
+
+/-- `_parse_field` on a declarator with an initializer `= value` (no array, no bit-field): the
+    value is EXACTLY the tokens written between the `=` and the `,` / `;` that ends it -/
+theorem parseField_init (env : Env) (F : Nat) (mods : Mods) (dtype : DType) (pq : PQName) (template : Option TemplateDecl)
+    (doxygen : Option String) (location : LocRef) (w : World) (eq : Tok) (vals : List Tok) (tm : Tok) (bq bv b1 : Buf)
+    (blk : Block) (rest : List Block) (hstack : w.stack = blk :: rest) (nm : Option String)
+    (hname : fieldName (blk.hdr.kind = .cls) pq = some nm)
+    (hteq : tokenEofOk env.cfg w.buf = .ok (some eq, bq)) (heq : eq.type = "=")
+    (hyv : Yields env.cfg bq vals bv) (htl : TopLevel [",", ";"] (vals.map (·.type)))
+    (htok : tokenEofOk env.cfg bv = .ok (some tm, b1)) (htm : [",", ";"].contains tm.type = true)
+    (hF : vals.length + 1 ≤ F) :
+    ∃ (w5 : World) (t' : Tok) (bx : Buf) (dox : Option String),
+      SameParse { w with stack := { blk with loc := location } :: rest } w5 ∧
+      tokenEofOk env.cfg w5.buf = .ok (some t', bx) ∧ SigEq b1 bx ∧ t'.type = tm.type ∧ t'.value = tm.value ∧
+      (∀ d, doxygen = some d → dox = some d) ∧
+      interp env (parseField (F + 1) mods dtype (some pq) template doxygen location false) w =
+        interp env (fieldEmit mods ({ blk with loc := location } : Block).view dtype (some pq) template nm none
+          (some (valueOf vals)) dox false) w5 := by
+  have htop := interp_getTop env { w with stack := { blk with loc := location } :: rest } { blk with loc := location } rest rfl
+  obtain ⟨wa, ta, hia, hsa, hta, htya, hva⟩ := step_tokenIf_miss env ["["] { w with stack := { blk with loc := location } :: rest } eq bq hteq (by rw [heq]; decide)
+  obtain ⟨wb, tb, hib, hsb, htb, htyb, hvb⟩ := step_tokenIf_miss env [":"] wa ta bq hta (by rw [htya, heq]; decide)
+  obtain ⟨wc, cc, hic, hbc, hsc, _, _⟩ := step_tokenIf_hit env ["="] wb tb bq htb (by rw [htyb, htya, heq]; decide)
+  obtain ⟨wd, res, td, hid, hbd, htvd, hsd, hres⟩ := consumeValueUntil_stops env [",", ";"] _ htl vals rfl tm htm F F [] wc bv b1
+    (by rw [hbc]; exact hyv) htok hF hF
+  have hcv : createValue res = valueOf vals := createValue_eq res vals (by simpa using hres)
+  have htyT : td.type = tm.type := congrArg Prod.fst htvd
+  have hvT : td.value = tm.value := congrArg Prod.snd htvd
+  have htd : tokenEofOk env.cfg wd.buf = .ok (some td, b1) := by
+    rw [hbd]; exact tokenEofOk_returnToken env.cfg td b1 (by rw [htyT]; exact tokenEofOk_not_discard htok)
+  have hsame := ((hsa.trans hsb).trans hsc).trans hsd
+  have hcvu : interp env (consumeValueUntil (F + 1) [] [",", ";"]) wc = (wd, .ok res) := hid
+  obtain ⟨n, sp, hg, hcase⟩ := fieldName_cases _ pq nm hname
+  cases doxygen with
+  | some d =>
+    refine ⟨wd, td, b1, some d, hsame, htd, SigEq.refl _, htyT, hvT, fun _ h => h, ?_⟩
+    unfold parseField P.setLoc
+    rcases hcase with ⟨hc, hl, rfl⟩ | ⟨hc, rfl⟩
     · have hc' : blk.hdr.kind = .cls := by simpa using hc
       simp only [bind, interp_bind, interp, hstack, htop, hg, Block.view, hc', Bool.false_or, decide_true, ↓reduceIte, hl,
-        hia, hib, hic, hid, pure]
+        hia, hib, hic, Bool.false_eq_true, hcvu, hcv, pure]
     · have hc' : ¬ blk.hdr.kind = .cls := by simpa using hc
       simp only [bind, interp_bind, interp, hstack, htop, hg, Block.view, hc', Bool.false_or, decide_false, Bool.false_eq_true,
-        ↓reduceIte, hia, hib, hic, hid, pure]
+        ↓reduceIte, hia, hib, hic, hcvu, hcv, pure]
   | none =>
     have hsig := getDoxygenAfter_sigEq env.mcRe wd.buf
     rcases tokenEofOk_sigEq env.cfg hsig.symm with ⟨e, he, _⟩ | ⟨o, bA, bB, hA, hB, hAB⟩
@@ -87,9 +164,9 @@ theorem parseField_plain (env : Env) (F : Nat) (mods : Mods) (dtype : DType) (pq
       rcases hcase with ⟨hc, hl, rfl⟩ | ⟨hc, rfl⟩
       · have hc' : blk.hdr.kind = .cls := by simpa using hc
         simp only [bind, interp_bind, interp, hstack, htop, hg, Block.view, hc', Bool.false_or, decide_true, ↓reduceIte, hl,
-          hia, hib, hic, hid, pure, interp_getDoxygenAfter]
+          hia, hib, hic, Bool.false_eq_true, hcvu, hcv, pure, interp_getDoxygenAfter]
       · have hc' : ¬ blk.hdr.kind = .cls := by simpa using hc
         simp only [bind, interp_bind, interp, hstack, htop, hg, Block.view, hc', Bool.false_or, decide_false, Bool.false_eq_true,
-          ↓reduceIte, hia, hib, hic, hid, pure, interp_getDoxygenAfter]
+          ↓reduceIte, hia, hib, hic, hcvu, hcv, pure, interp_getDoxygenAfter]
 
 end Cxx
